@@ -268,12 +268,28 @@ type StreamCase struct {
 	Stream gen.Stream `json:"stream"`
 	InCap  int        `json:"in_cap"`
 	OutCap int        `json:"out_cap"`
+	// QuietMs > 0: the source sends nothing for that long before byte QuietAt (a base station rebooting,
+	// a replugged cable) while the input stays open.
+	QuietAt int `json:"quiet_at"`
+	QuietMs int `json:"quiet_ms"`
 }
 
 func checkStream(c StreamCase, o *stats.Obs) error {
 	input := c.Stream.Bytes()
-	for _, level := range []slog.Level{slog.LevelDebug, slog.LevelInfo} {
-		res := drive.Run(drive.NewHandler(level), input, drive.Options{InCap: c.InCap, OutCap: c.OutCap, Timeout: watchdog})
+	levels := []slog.Level{slog.LevelDebug, slog.LevelInfo}
+	opt := drive.Options{InCap: c.InCap, OutCap: c.OutCap, Timeout: watchdog}
+	if c.QuietMs > 0 {
+		levels = levels[1:]
+		opt.Timeout = time.Duration(c.QuietMs)*time.Millisecond + watchdog
+		opt.ProducerPause = func(i int) {
+			if i == c.QuietAt {
+				time.Sleep(time.Duration(c.QuietMs) * time.Millisecond)
+			}
+		}
+		o.Class("quiet-line")
+	}
+	for _, level := range levels {
+		res := drive.Run(drive.NewHandler(level), input, opt)
 		if res.Panic != "" {
 			o.Key = "panic"
 			return fmt.Errorf("HandleMessages panicked on stream %x: %s", input, res.Panic)
@@ -329,6 +345,39 @@ func genStream(t *rapid.T) StreamCase {
 var propStream = stats.Prop(R, "stream", genStream, checkStream)
 
 func TestStream(t *testing.T) { rapid.Check(t, propStream) }
+
+// Quiet line: the source stops for seconds at a segment boundary or inside a segment, input still open.
+func genQuiet(t *rapid.T) StreamCase {
+	c := StreamCase{Stream: gen.AnyStream(t, gen.Adversarial, 6, 40), InCap: rapid.SampledFrom([]int{0, 16}).Draw(t, "inCap"), OutCap: 1}
+	if len(c.Stream.Bytes()) > 20000 {
+		c.Stream = gen.Stream{}
+	}
+	c.Stream.Segs = append([]gen.Segment{{Kind: "valid", Data: gen.ValidFrame(t, 40)}}, c.Stream.Segs...)
+	c.Stream.Segs = append(c.Stream.Segs, gen.Segment{Kind: "valid", Data: gen.ValidFrame(t, 40)})
+	off := 0
+	var bounds, mids []int
+	for _, g := range c.Stream.Segs {
+		off += len(g.Data)
+		bounds = append(bounds, off)
+		if len(g.Data) >= 2 {
+			mids = append(mids, off-len(g.Data)/2)
+		}
+	}
+	bounds = bounds[:len(bounds)-1]
+	c.QuietAt = rapid.SampledFrom(bounds).Draw(t, "quietAtBoundary")
+	if len(mids) > 0 && rapid.IntRange(0, 2).Draw(t, "quietInside") == 1 {
+		c.QuietAt = rapid.SampledFrom(mids).Draw(t, "quietAtMid")
+	}
+	c.QuietMs = 5500
+	if os.Getenv("VERIF_TIER") == "thorough" {
+		c.QuietMs = 12000
+	}
+	return c
+}
+
+var propQuiet = stats.Prop(R, "quiet-line", genQuiet, checkStream)
+
+func TestQuietLine(t *testing.T) { rapid.Check(t, propQuiet) }
 
 // Several goroutines decoding and displaying independent frames at the same time (a runtime abort such
 // as a concurrent map write kills the process and is reported from the written-ahead case).
